@@ -6,6 +6,7 @@ import (
 	"time"
 
 	"github.com/sdcio/data-server/pkg/tree"
+	"github.com/sdcio/data-server/pkg/verifhook"
 )
 
 type Transaction struct {
@@ -56,6 +57,7 @@ func (t *Transaction) Confirm() error {
 		return fmt.Errorf("no ongoing transaction")
 	}
 	t.timer.Stop()
+	verifhook.Point("tx.confirm.timerStopped")
 	return nil
 }
 
